@@ -33,13 +33,13 @@ def cases(tier, seed):
         yield {"seed": seed, "idx": i, "hashseeds": seeds, "orders": orders}
 
 
-def spawn(src, pkg, store, mode, order, hashseed, trace=None):
+def spawn(src, pkg, store, mode, order, hashseed, trace=None, plugin="last"):
     envv = dict(os.environ, PYTHONPATH=os.pathsep.join([core.REPO, core.HERE]), PYTHONHASHSEED=str(hashseed),
                 PYTHONDONTWRITEBYTECODE="1", OPENBLAS_NUM_THREADS="1")
     envv.pop("VF_TRACE_FILE", None)
     if trace:
         envv["VF_TRACE_FILE"] = trace
-    p = subprocess.run([core.PY, CHILD, src, pkg, store, mode, json.dumps(order)], env=envv, capture_output=True,
+    p = subprocess.run([core.PY, CHILD, src, pkg, store, mode, json.dumps(order), plugin], env=envv, capture_output=True,
                        text=True, timeout=300)
     line = next((l for l in p.stdout.split("\n") if l.startswith("VFRESULT ")), None)
     if p.returncode != 0 or line is None:
@@ -160,6 +160,19 @@ def build_program(case):
         prog["aliases"].append({"name": name, "mod": nodes[u]["mod"], "target": t, "partial": True})
         nodes[u]["calls"].append({"t": t, "form": "alias", "alias": name})
         out["obs"]["programs_with_a_partial_object_around_a_helper"] += 1
+    # a list variable of module a that a memento function of module b reads is filled in place by a third module (a
+    # plug-in registering itself): whether that module is imported before or after the function's module must not matter
+    if case["idx"] % 3 == 1 and any(nd["mod"] == "b" and nd["kind"] == "memento" for nd in nodes):
+        lists = [j for j, v in enumerate(prog["vars"]) if v["mod"] == "a" and v["type"] == "list"]
+        if not lists:
+            prog["vars"].append({"name": "GP", "mod": "a", "type": "list", "value": [1, 2]})
+            lists = [len(prog["vars"]) - 1]
+        vj = rng.choice(lists)
+        readers = [u for u, nd in enumerate(nodes) if nd["mod"] == "b" and nd["kind"] == "memento"]
+        if not any(rd["v"] == vj for u in readers for rd in nodes[u]["reads"]):
+            nodes[rng.choice(readers)]["reads"].append({"v": vj, "form": rng.choice(["attr", "bare"])})
+        prog["plugin"] = "import %s.a as a\n\na.%s.append(%d)\n" % (prog["pkg"], prog["vars"][vj]["name"], rng.randint(3, 9))
+        out["obs"]["programs_with_a_plug_in_module_filling_a_list_in_place"] += 1
     out["sets"]["features"] |= progs.features(prog)
     return prog, nodes, lasts, rng, out
 
@@ -187,6 +200,9 @@ def run_case(case):
                 rng.shuffle(order)
             src = sc.path("src%d" % o)
             progs.write_package(prog, src, order=order)
+            if prog.get("plugin"):
+                with open(os.path.join(src, prog["pkg"], "p.py"), "w") as f:
+                    f.write(prog["plugin"])
             srcs.append(src)
         k = 0
         for hs in range(case["hashseeds"]):
@@ -200,7 +216,7 @@ def run_case(case):
                     fq = [nodes[lasts[0]]["mod"], nodes[lasts[0]]["name"]]
                     q = [fq] + [x for x in q if x != fq]
                 k += 1
-                vm = spawn(src, prog["pkg"], sc.path("vstore%d" % k), "versions", q, hs if hs else 0)
+                vm = spawn(src, prog["pkg"], sc.path("vstore%d" % k), "versions", q, hs if hs else 0, plugin=["last", "first"][k % 2])
                 out["obs"]["interpreters_run"] += 1
                 maps[(hs, o, tuple(n for _, n in q))] = vm
         distinct = {json.dumps(v, sort_keys=True) for v in maps.values()}
@@ -223,7 +239,7 @@ def run_case(case):
                  % (case["seed"], case["idx"], bad, groups))
         # unchanged program, same store: the second process executes no body
         store = sc.path("store")
-        first = spawn(srcs[0], prog["pkg"], store, "call", fns, 11)
+        first = spawn(srcs[0], prog["pkg"], store, "call", fns, 11, plugin="first")
         out["obs"]["interpreters_run"] += 1
         trace = sc.path("trace.txt")
         q = list(fns)
